@@ -58,20 +58,16 @@ def run(ctx):
     ]
     vlib.build_harness(["drv_conv"])
 
-    # 1. model checking of the list model
+    # 1. (A) case generation, four one-worker TLC processes side by side
+    cases, n = V.generate(ctx, "Gen_Conv", ["Gen_Conv_int.cfg", "Gen_Conv_text.cfg", "Gen_Conv_float.cfg",
+                                            ("MC_ValueList", "Gen_ValueList.cfg" if q else "Gen_ValueList_thorough.cfg")],
+                          "cases.ndjson", timeout=3000)
+
+    # 2. model checking of the list model
     r = vlib.tlc(V.SPEC, "MC_ValueList", "MC_ValueList.cfg" if q else "MC_ValueList_thorough.cfg", workers=4, timeout=3000)
     ctx.check_model(r, "ValueList laws")
     ctx.require_coverage(r, ["Step"])
 
-    # 2. A
-    cases, n = V.generate(ctx, "Gen_Conv", ["Gen_Conv_int.cfg", "Gen_Conv_text.cfg", "Gen_Conv_float.cfg"], "cases.ndjson", timeout=3000)
-    gr, k = vlib.tlc_generate(V.SPEC, "MC_ValueList", "Gen_ValueList.cfg" if q else "Gen_ValueList_thorough.cfg", cases,
-                              timeout=3000, append=True, heap="8g")
-    ctx.add_tlc(gr)
-    if k == 0:
-        raise vlib.ToolError("vacuity: no operation histories generated")
-    vlib.log("[C11] MC_ValueList: %d operation histories generated by TLC" % k)
-    n += k
     rep = vlib.run_driver("drv_conv", ["replay", "--cases", cases], env=ctx.env(), timeout=3000)
     if rep["cases"] != n:
         raise vlib.ToolError("driver executed %d of %d cases" % (rep["cases"], n))
@@ -87,6 +83,20 @@ def run(ctx):
     for i, c in enumerate(vlib.read_ndjson(cases)):
         if i in (3000, 7000, n - 1):
             ctx.sample(c)
+
+    def corrupt_case(c):
+        if c["kind"] == "int" and not c["multi"] and c["res"]["ok"] and c["res"]["n"]["d"] != [0]:
+            c["res"]["n"]["d"][-1] = (c["res"]["n"]["d"][-1] + 1) % 10
+            return True
+        return False
+    V.selftest_replay(ctx, "drv_conv", lambda p: ["replay", "--cases", p], cases, corrupt_case, "an expected to_int result with the last digit changed")
+
+    def corrupt_hist(c):
+        if c["kind"] == "hist" and c["steps"][0]["ok"] and len(c["steps"][0]["after"]["items"]) > 0:
+            c["steps"][0]["after"]["items"] = c["steps"][0]["after"]["items"][:-1]
+            return True
+        return False
+    V.selftest_replay(ctx, "drv_conv", lambda p: ["replay", "--cases", p], cases, corrupt_hist, "an expected value after extend with the last item dropped")
 
     # 3. B
     rep2 = vlib.run_driver("drv_conv", ["record", "--n", 6000 if q else 120000, "--out", ctx.path("rec")], env=ctx.env())
@@ -106,3 +116,10 @@ def run(ctx):
         return False
     V.selftest_corrupt(ctx, "Trace_Conv", rep2["trace"], corrupt, "a recorded to_int result with the last digit changed")
     ctx.exhaustive = False
+
+
+def replay(ctx, obj):
+    """bin/check C11 --replay <file>: re-execute one recorded violation alone"""
+    ctx.level = "model_checking"
+    ctx.rule = "replay of one recorded violation"
+    V.replay_file(ctx, "drv_conv", lambda c: ["replay", "--cases", c], "Trace_Conv", ("conv", "vinit"), fp_trace)
